@@ -29,7 +29,9 @@ func NewRamp(t *rapid.T, big bool) *Ramp {
 	r.Reuse = rapid.SampledFrom([]int{1, 1, 2, 5}).Draw(t, "reuse")
 	r.Sizes = []int{0, 1, 40, 130, 200, 300}
 	if big {
-		r.Sizes = []int{1, 300, 1000, 20000, 66000}
+		// first entries are favoured by rapid: make crossing 65,535 the common case,
+		// in one batch (66000) or cumulatively (20000 + 40000 + ...)
+		r.Sizes = []int{66000, 40000, 20000, 300, 1}
 	}
 	r.Wide = rapid.Bool().Draw(t, "wide")
 	return r
